@@ -326,7 +326,7 @@ class Kernel:
                 if s is None or fam not in (AF_INET, AF_INET6) or fam != s.family:
                     # Linux: EAFNOSUPPORT when the address family does not match the socket's
                     if s is not None:
-                        self.emit("send_error", p.name, fd=fd, family=fam, errno=97, n=len(data), cause=p.cause)
+                        self.emit("send_error", p.name, fd=fd, family=fam, errno=97, n=len(data), data=data, cause=p.cause)
                     self._reply(p, struct.pack("<i", -97 if s else -9))
                     continue
                 dst = (ip_unpack(fam, raw), port)
